@@ -934,6 +934,22 @@ func (e *Engine) evalCall(st *State, env *cenv, x *CExpr) (Val, error) {
 			return Val{K: KBool, T: "(< (root " + t + ") " + env.freshWM + ")"}, nil
 		}
 		return Val{K: KBool, T: "(< (root " + t + ") 0)"}, nil
+	case "iterfresh": // object allocated in the current iteration of the innermost cut loop (not carried over from an earlier one)
+		v, err := e.evalC(st, env, args[0])
+		if err != nil {
+			return Val{}, err
+		}
+		t := v.T
+		if v.K == KSlice {
+			t = v.Base
+		}
+		if v.K == KIface {
+			t = "(iaddr " + v.T + ")"
+		}
+		if env.fr == nil || env.fr.iterWM == "" {
+			return Val{}, fmt.Errorf("iterfresh(): no loop has been cut here")
+		}
+		return Val{K: KBool, T: "(< (root " + t + ") " + env.fr.iterWM + ")"}, nil
 	case "visited": // visited(m, k): the range loop over map m has already produced key k
 		v, err := e.evalC(st, env, args[0])
 		if err != nil {
